@@ -602,3 +602,14 @@ def step_of_a_configuration_created_before_the_setter(v):
 def atmo_powder_temperature(temperature, powder_t):
     """the real constructor: an atmosphere built with the given air temperature and (optional) powder temperature"""
     return Atmo(temperature=temperature, powder_t=powder_t)
+
+
+# ---------------------------------------------------------------------------------------
+# C09 history harness: drag look-ups on a really initialised calculator, in any order of Mach numbers
+def drag_queries_after_init(calc, shot, m1, m2):
+    """a calculator initialised by the real _init_trajectory answers two successive drag queries; the second answer
+    must be the table's value for the second Mach number whatever the first query was (rising or falling Mach)"""
+    calc._init_trajectory(shot)
+    a = calc.drag_by_mach(m1)
+    b = calc.drag_by_mach(m2)
+    return (calc, a, b)
